@@ -37,7 +37,9 @@ TRUSTED = ['numpy slicing / integer-array indexing as transcribed in Model/Arrow
            'harness/c01_util.py export_scalar)',
            'A-FLOAT: on integer-valued coordinates below 2^11 every -, * and comparison of the '
            'kernels is exact in float64/float32/int64/int32/int16 (validated by this run: all five '
-           'subtypes are compared with the integer model)']
+           'subtypes are compared with the integer model); for float64 and |integer| <= 2^25 it is a '
+           'theorem (C01_*_float_exact) about the binary64 model Model/FloatKernels.v, which '
+           'harness/cfloat_util.py compares with the real kernels on arbitrary float64 inputs']
 
 IMPORTS = 'Model.Num Model.Arrow Model.Bounds Model.PointKernels Model.Intersect'
 MODEL_FN = {'point': 'point_array', 'multipoint': 'multipoint_array', 'line': 'line_array',
@@ -659,6 +661,22 @@ def run(rep):
         numba.set_num_threads(nthreads)
     rep.extra['bulk_cpu_seconds'] = round(time.process_time(), 1)
     finish(rep, acc, tier, t0)
+    run_float_model(rep)
+
+
+def run_float_model(rep):
+    """the binary64 model (Model/FloatKernels.v: triangle_orientation, segments_intersect_1d,
+    segments_intersect) against the real kernels on arbitrary float64 inputs; on the integers
+    |z| <= 2^25 that model is PROVED equal to the integer model (C01_*_float_exact)"""
+    try:
+        from . import cfloat_util
+        cfloat_util.run_float_kernels(rep)
+    except C.ModelUnavailable:
+        raise
+    except Exception as e:  # noqa: BLE001
+        viol(rep, 'float-kernel-harness-error',
+             f'the float-kernel correspondence could not run: {type(e).__name__} {e}',
+             {'float_kernel': 'harness-error', 'error': f'{type(e).__name__}: {e}'})
 
 
 def bulk(rep, acc, tier):
@@ -1092,6 +1110,9 @@ def explain(rep, fn, case, result, meta):
 # replay
 # ----------------------------------------------------------------------------
 def replay(rep, rp):
+    if rp.get('float_kernel'):
+        from . import cfloat_util
+        return cfloat_util.replay(rep, rp)
     kind = rp['kind']
     q = rp.get('qscale', 1) or 1      # boxes are stored in units of 1/q
 
